@@ -82,3 +82,43 @@ def register(M):
     M('C01_ns', ['C01'], 'doctest_example.py',
       "                                exec(code, test_globals)\n", "                                exec(code, dict(test_globals))\n",
       'exec parts run in a copy of the namespace (bindings lost between parts)')
+
+    # ---- C02 ---------------------------------------------------------------
+    M('E2', ['C02'], 'doctest_example.py',
+      "                if not part.has_any_code():\n", "                if False:\n",
+      'comment-only doctest no longer skipped (passes)')
+    M('E16', ['C02'], 'doctest_example.py',
+      "                            self._unmatched_stdout.append(cap.text)", "                            self._unmatched_stdout = [cap.text]",
+      'only the last unmatched output is kept')
+    M('M28', ['C02'], 'doctest_example.py',
+      "                except checker.GotWantException:\n                    # When the \"got\", doesn't match the \"want\"\n                    self.exc_info = sys.exc_info()\n                    if on_error == 'raise':\n                        raise\n                    break",
+      "                except checker.GotWantException:\n                    # When the \"got\", doesn't match the \"want\"\n                    self.exc_info = sys.exc_info()\n                    if on_error == 'raise':\n                        raise\n                    pass",
+      'got/want failure recorded but execution continues')
+    M('K4', ['C02'], 'checker.py',
+      "            try:\n                got = repr(got_eval)\n            except Exception as ex:",
+      "            try:\n                got = str(got_eval)\n            except Exception as ex:",
+      'str() instead of repr() of the value')
+    M('C02_noclear', ['C02'], 'doctest_example.py',
+      "                            # Clear unmatched output when a check passes\n                            self._unmatched_stdout = []",
+      "                            # Clear unmatched output when a check passes\n                            pass",
+      'unmatched output not cleared after a match')
+    M('C02_trailing', ['C02'], 'doctest_part.py',
+      "            got_ = ''.join(trailing_gots[-i:])", "            got_ = ''.join(trailing_gots[-1:])",
+      'only the last output is tried against the want')
+    M('C02_failedpart', ['C02'], 'doctest_example.py',
+      "                self.failed_part = part  # Assume part will fail (it may not)",
+      "                self.failed_part = self._parts[0]  # Assume part will fail (it may not)",
+      'failure attributed to the first part')
+    M('C02_noevalfallback', ['C02'], 'checker.py',
+      "                got = got_repr\n                flag = check_output(got, want, runstate)\n",
+      "                got = got_repr\n                flag = False\n",
+      'value fallback removed when the statement also printed')
+    M('C02_F6', ['C02', 'C20'], 'checker.py',
+      "                if not flag and got_eval is not None:", "                if False:",
+      'reverse of fix F6 (stdout followed by the echoed value not accepted)')
+    M('C02_wantline', ['C02', 'C08'], 'doctest_example.py',
+      "                offset += self.failed_part.n_exec_lines + 1", "                offset += self.failed_part.n_exec_lines",
+      'want line off by one')
+    M('C02_skipaspass', ['C02', 'C10'], 'doctest_example.py',
+      "        passed = not failed and not skipped", "        passed = not failed",
+      'skipped doctests also count as passed')
